@@ -24,6 +24,9 @@ from agilerl.algorithms.neural_ucb_bandit import NeuralUCB
 from agilerl.algorithms.neural_ts_bandit import NeuralTS
 from agilerl.algorithms.core.registry import HyperparameterConfig, RLParameter
 from agilerl.hpo.mutation import Mutations
+from agilerl.hpo.tournament import TournamentSelection
+from agilerl.components.replay_buffer import ReplayBuffer
+from agilerl.training.train_bandits import train_bandits
 
 warnings.filterwarnings("ignore")
 
@@ -76,7 +79,7 @@ def snap(agent, with_sigma):
          "shape": [int(x) for x in s.shape], "live": layer_desc(lay),
          "sigma": None, "dtype": str(s.dtype)}
     if with_sigma and s.dim() == 2 and s.shape[0] <= NMAX and s.shape[1] <= NMAX:
-        d["sigma"] = [[float(x) for x in row] for row in s.detach().cpu().double().numpy()]
+        d["sigma"] = [[(float(x) if np.isfinite(x) else None) for x in row] for row in s.detach().cpu().double().numpy()]
     return d
 
 
@@ -103,6 +106,124 @@ class ScriptedNodes:
 
     def __exit__(self, *exc):
         np.random.choice = self.orig
+
+
+class CaptureBonus:
+    """Observes the exploration bonus get_action really used, from outside: NeuralTS passes it to torch.normal as
+    `std`; NeuralUCB adds it to the network output, which is re-evaluated by the caller (`mu`) — the sum reaches
+    np.argmax. If a refactoring removes these calls nothing is captured and the bonus clause is skipped."""
+
+    def __init__(self):
+        self.std = None
+        self.values = None
+
+    def __enter__(self):
+        self.o_normal, self.o_argmax = torch.normal, np.argmax
+        me = self
+
+        def normal(*a, **kw):
+            if me.std is None and "std" in kw and torch.is_tensor(kw["std"]):
+                me.std = kw["std"].detach().clone()
+            return me.o_normal(*a, **kw)
+
+        def argmax(a, *args, **kw):
+            if me.values is None:
+                try:
+                    me.values = np.array(np.ma.getdata(a), dtype=np.float64).reshape(-1)
+                except Exception:
+                    pass
+            return me.o_argmax(a, *args, **kw)
+        torch.normal, np.argmax = normal, argmax
+        return self
+
+    def __exit__(self, *exc):
+        torch.normal, np.argmax = self.o_normal, self.o_argmax
+
+    def bonus(self, algo):
+        if algo == "ts" and self.std is not None:
+            return [(float(x) if np.isfinite(x) else None) for x in self.std.double().reshape(-1).numpy()]
+        return None
+
+
+class TinyBanditEnv:
+    """reset() -> context (arms, cdim); step(k) -> (next context, reward) — the interface train_bandits uses"""
+
+    def __init__(self, arms, cdim, rs):
+        self.arms, self.cdim, self.rs = arms, cdim, rs
+
+    def _ctx(self):
+        return (self.rs.randn(self.arms, self.cdim) * 1.5).astype(np.float32)
+
+    def reset(self):
+        return self._ctx()
+
+    def step(self, k):
+        return self._ctx(), float(self.rs.rand() < 0.5)
+
+
+class LoopRecorder:
+    """Class-level wrappers around init_params / get_action / learn that record, per agent object, the history the
+    real training loop (train_bandits + tournament + Mutations) drives it through."""
+
+    def __init__(self, cls, algo, every):
+        self.cls, self.algo, self.every = cls, algo, every
+        self.events = {}
+
+    def rec_of(self, agent):
+        return self.events.setdefault(id(agent), {"agent": agent, "init": None, "ops": [], "trace": [],
+                                                  "crash": None, "workarounds": [], "parents": []})
+
+    def __enter__(self):
+        cls, me = self.cls, self
+        self.o_init, self.o_act, self.o_learn = cls.init_params, cls.get_action, cls.learn
+
+        def init_params(agent):
+            me.o_init(agent)
+            e = me.rec_of(agent)
+            if e["init"] is None:
+                e["init"] = snap(agent, True)
+            else:
+                e["ops"].append(["mut", "hook", 0])
+                r = {"op": "mut"}
+                r.update(snap(agent, True))
+                e["trace"].append(r)
+
+        def get_action(agent, obs, action_mask=None):
+            e = me.rec_of(agent)
+            ctx = np.asarray(obs, dtype=np.float32)
+            G = features(agent, ctx)
+            with torch.no_grad():
+                mu0 = agent.actor(torch.as_tensor(ctx)).detach().cpu().double().numpy().reshape(-1)
+            S_before = agent.sigma_inv.detach().clone()
+            with CaptureBonus() as cap:
+                a = me.o_act(agent, obs, action_mask=action_mask)
+            r = {"op": "act", "action": int(a), "G": [[float(x) for x in row] for row in G]}
+            if S_before.shape == (G.shape[1], G.shape[1]):
+                g32 = torch.as_tensor(G)
+                rad = torch.matmul(torch.matmul(g32[:, None, :], S_before), g32[:, :, None])[:, 0, 0]
+                r["radicand"] = [(float(x) if np.isfinite(x) else None) for x in rad]
+            r["bonus"] = cap.bonus(me.algo)
+            if me.algo == "ucb" and cap.values is not None and len(cap.values) == len(mu0):
+                r["bonus"] = [(float(x) if np.isfinite(x) else None) for x in (cap.values - mu0)]
+            nact = sum(1 for o in e["ops"] if o[0] == "act")
+            r.update(snap(agent, nact % me.every == 0))
+            e["ops"].append(["act", None if action_mask is None else [int(x) for x in action_mask]])
+            e["trace"].append(r)
+            return a
+
+        def learn(agent, experiences):
+            loss = me.o_learn(agent, experiences)
+            e = me.rec_of(agent)
+            r = {"op": "learn", "loss": float(loss)}
+            r.update(snap(agent, False))
+            e["ops"].append(["learn"])
+            e["trace"].append(r)
+            return loss
+        cls.init_params, cls.get_action, cls.learn = init_params, get_action, learn
+        return self
+
+    def __exit__(self, *exc):
+        self.cls.init_params, self.cls.get_action, self.cls.learn = self.o_init, self.o_act, self.o_learn
 
 
 def make_mutations(kind, seed):
@@ -153,7 +274,7 @@ class C19(vlib.Driver):
     # ---------- generation
     def generate(self, tier, rng):
         cases = []
-        nhist = 48 if tier == "quick" else 420
+        nhist = 48 if tier == "quick" else 300
         for i in range(nhist):
             algo = "ucb" if i % 2 == 0 else "ts"
             arms = rng.randint(2, 4)
@@ -191,6 +312,13 @@ class C19(vlib.Driver):
             cases.append({"kind": "hist", "algo": algo, "arms": arms, "cdim": cdim, "lam": lam, "gamma": gamma,
                           "enc": enc, "head": head, "partial": rng.random() < 0.15, "seed": rng.randrange(10 ** 6),
                           "ops": ops, "every": 4})
+        # the real training loop (train_bandits) with and without tournament selection + mutation
+        nloop = 6 if tier == "quick" else 20
+        for i in range(nloop):
+            cases.append({"kind": "loop", "algo": "ucb" if i % 2 == 0 else "ts", "arms": rng.randint(2, 4), "cdim": rng.randint(2, 5),
+                          "lam": rng.choice([0.5, 1.0, 2.0]), "gamma": 1.0, "enc": [rng.randint(2, 4)], "head": [rng.randint(1, 4)],
+                          "partial": False, "seed": rng.randrange(10 ** 6), "hpo": i % 3 != 0, "pop": 2,
+                          "episode": rng.randint(3, 6), "gens": rng.randint(2, 3), "every": 3})
         # unit stream: the index surgery of _reinit_bandit_grads, exact on tagged matrices
         nres = 16 if tier == "quick" else 60
         for i in range(nres):
@@ -208,6 +336,8 @@ class C19(vlib.Driver):
         np.random.seed(case["seed"] % (2 ** 31))
         with warnings.catch_warnings():
             warnings.simplefilter("ignore")
+            if case["kind"] == "loop":
+                return self.run_loop(case)
             return self.run_hist(case) if case["kind"] == "hist" else self.run_resize(case)
 
     def _resize_actor(self, agent, how, k):
@@ -230,6 +360,46 @@ class C19(vlib.Driver):
         return {"old": old_desc, "new": new_desc, "S": S, "M": [[float(x) for x in r] for r in M],
                 "numel": int(agent.numel), "bound": bool(agent.exp_layer is live_layer(agent))}
 
+    def run_loop(self, case):
+        import contextlib
+        import io
+        cls = ALGOS[case["algo"]]
+        rs = np.random.RandomState(case["seed"])
+        env = TinyBanditEnv(case["arms"], case["cdim"], rs)
+        with LoopRecorder(cls, case["algo"], case.get("every", 3)) as rec:
+            pop = []
+            for i in range(case["pop"]):
+                a = build_agent(case)
+                a.index = i
+                a.learn_step = 1
+                pop.append(a)
+            memory = ReplayBuffer(max_size=64)
+            tournament = mutation = None
+            if case["hpo"]:
+                tournament = TournamentSelection(tournament_size=2, elitism=True, population_size=case["pop"], eval_loop=1)
+                mutation = Mutations(no_mutation=0.1, architecture=0.3, new_layer_prob=0.3, parameters=0.2, activation=0.2,
+                                     rl_hp=0.2, mutation_sd=0.1, rand_seed=case["seed"], device="cpu")
+            crash = None
+            try:
+                with ScriptedNodes(1), contextlib.redirect_stdout(io.StringIO()), contextlib.redirect_stderr(io.StringIO()):
+                    pop, _ = train_bandits(env, "verif-bandit", case["algo"], pop, memory, max_steps=case["episode"] * case["gens"],
+                                           episode_steps=case["episode"], evo_steps=case["episode"], eval_steps=2, eval_loop=1,
+                                           tournament=tournament, mutation=mutation, wb=False, verbose=False)
+            except Exception as e:
+                crash = f"{type(e).__name__}: {e}"[:300]
+        agents = []
+        alive = {id(a) for a in pop}
+        for aid, e in rec.events.items():        # every agent object the loop ever created, in creation order
+            if e["init"] is None or not e["ops"]:
+                continue
+            if aid in alive and e["trace"]:
+                e["trace"][-1].update(snap(e["agent"], True))     # final state of a surviving agent is always compared
+            d = {k: v for k, v in e.items() if k != "agent"}
+            d["survivor"] = aid in alive
+            agents.append(d)
+        return {"agents": agents, "crash": crash, "created": len(rec.events),
+                "survivors_recorded": sum(1 for a in pop if id(a) in rec.events)}
+
     def run_hist(self, case):
         agent = build_agent(case)
         rs = np.random.RandomState(case["seed"])
@@ -246,14 +416,20 @@ class C19(vlib.Driver):
                     ctx = (rs.randn(case["arms"], case["cdim"]) * 1.5).astype(np.float32)
                     mask = None if op[1] is None else np.array(op[1])
                     G = features(agent, ctx)
+                    with torch.no_grad():
+                        mu0 = agent.actor(torch.as_tensor(ctx)).detach().cpu().double().numpy().reshape(-1)
                     S_before = agent.sigma_inv.detach().clone()
-                    a = int(agent.get_action(ctx, action_mask=mask))
+                    with CaptureBonus() as cap:
+                        a = int(agent.get_action(ctx, action_mask=mask))
                     rec["action"] = a
+                    rec["bonus"] = cap.bonus(case["algo"])
+                    if case["algo"] == "ucb" and cap.values is not None and len(cap.values) == len(mu0):
+                        rec["bonus"] = [(float(x) if np.isfinite(x) else None) for x in (cap.values - mu0)]
                     rec["G"] = [[float(x) for x in row] for row in G]
                     if S_before.shape == (G.shape[1], G.shape[1]):
                         g32 = torch.as_tensor(G)
                         rad = torch.matmul(torch.matmul(g32[:, None, :], S_before), g32[:, :, None])[:, 0, 0]
-                        rec["radicand"] = [float(x) for x in rad]
+                        rec["radicand"] = [(float(x) if np.isfinite(x) else None) for x in rad]
                 elif op[0] == "learn":
                     B = 8
                     exp = {"obs": torch.as_tensor((rs.randn(B, case["cdim"]) * 1.5).astype(np.float32)),
@@ -317,7 +493,9 @@ class C19(vlib.Driver):
                 out["workarounds"].append(oi)
                 agent.exp_layer = live_layer(agent)
         for parent, sig0, oi in parents:
-            out["parents"].append({"op_index": oi, "unchanged": bool(torch.equal(parent.sigma_inv, sig0))})
+            same = parent.sigma_inv.shape == sig0.shape and bool(
+                ((parent.sigma_inv == sig0) | (torch.isnan(parent.sigma_inv) & torch.isnan(sig0))).all())
+            out["parents"].append({"op_index": oi, "unchanged": same})
         return out
 
     # ---------- model term
@@ -337,11 +515,20 @@ class C19(vlib.Driver):
                 f"o_cols := {shape[1]}; o_sigma := {sig}; o_arms := {g} |}}")
 
     def coq_term(self, case, obs):
+        if case["kind"] == "loop":
+            ts = [self.coq_term(dict(case, kind="hist", ops=o["ops"]), o) for o in obs["agents"]]
+            t = "true"
+            for x in ts:
+                t = f"andb ({x}) ({t})"
+            return t
         if case["kind"] == "resize":
             dval = 1.0 / case["lam"]
             return (f"check_resize {self.q_layer(obs['old'])} {self.q_layer(obs['new'])} {coq_Q(dval)} "
                     f"{self.q_mat(obs['S'])} {self.q_mat(obs['M'])}")
         ops, obl = [], []
+        if any(x is None for rec in [obs["init"]] + obs["trace"] if rec["sigma"] for row in rec["sigma"] for x in row) or \
+           any(not np.isfinite(x) for rec in obs["trace"] for row in rec.get("G", []) for x in row):
+            return "false"      # NaN / inf in sigma_inv or in a feature: no rational model value can agree
         for op, rec in zip(case["ops"], obs["trace"]):
             if rec["numel"] > NMAX or max(rec["shape"]) > 64:
                 # too large for exact arithmetic in Coq: compare sizes up to here only (oracle covers the rest)
@@ -382,6 +569,17 @@ class C19(vlib.Driver):
         def V(clause, detail, site=""):
             out.append(Violation(clause, f"{algo}:{clause}{(':' + site) if site else ''}", detail))
 
+        if case["kind"] == "loop":
+            for i, o in enumerate(obs["agents"]):
+                for v in self.oracle(dict(case, kind="hist", ops=o["ops"]), o):
+                    v.signature += ":train_bandits"
+                    v.detail = f"train_bandits, surviving agent {i}: " + v.detail
+                    out.append(v)
+            if obs["crash"] and not out:
+                V("crash", f"train_bandits raised {obs['crash']}", "train_bandits")
+            if obs.get("survivors_recorded", 1) == 0 and not obs["crash"]:
+                V("crash", "train_bandits returned agents the recorder never saw", "train_bandits-unrecorded")
+            return out
         if case["kind"] == "resize":
             n_new = sum(n for _, n in obs["new"])
             M = np.array(obs["M"])
@@ -415,6 +613,9 @@ class C19(vlib.Driver):
         def check_matrix(rec, A, where, fresh):
             """sigma (if recorded) against the float64 Gram matrix A (None = unknown after a resize)"""
             if rec["sigma"] is None:
+                return
+            if any(x is None for row in rec["sigma"] for x in row):
+                V("finite", f"{where}: sigma_inv contains NaN / inf entries")
                 return
             S = np.array(rec["sigma"], dtype=np.float64)
             scale = 1.0 / lam
@@ -454,9 +655,15 @@ class C19(vlib.Driver):
                 if op[1] is not None and not (0 <= a < len(op[1]) and op[1][a] == 1):
                     V("mask", f"{where}: chosen arm {a} is masked out by {op[1]}")
                 if "radicand" in rec:
-                    bad = [r for r in rec["radicand"] if not (r >= -1e-6 / lam)]
+                    bad = [r for r in rec["radicand"] if r is None or not (r >= -1e-6 / lam)]
                     if bad:
                         V("bonus", f"{where}: radicand g S g^T of the exploration bonus is negative / NaN: {rec['radicand']}")
+                if rec.get("bonus") is not None and "radicand" in rec and len(rec["bonus"]) == len(rec["radicand"]):
+                    for k, (b, r) in enumerate(zip(rec["bonus"], rec["radicand"])):
+                        want = float(case["gamma"]) * np.sqrt(max(r, 0.0)) if r is not None else None
+                        if b is None or b < -1e-5 or (want is not None and abs(b - want) > 1e-3 * (1 + want)):
+                            V("bonus", f"{where}: exploration bonus of arm {k} is {b}, expected gamma*sqrt(g S g^T) = {want} >= 0")
+                            break
                 g = np.array(rec["G"][a], dtype=np.float64) if 0 <= a < len(rec["G"]) else None
                 if A is not None and g is not None and len(g) == len(A):
                     A = A + np.outer(g, g)
@@ -469,6 +676,14 @@ class C19(vlib.Driver):
             elif op[0] == "resize":
                 A = None
                 check_matrix(rec, None, where, False)
+                w_old = dict(map(tuple, rec["old"])).get(0, 0)
+                w_new = dict(map(tuple, rec["live"])).get(0, 0)
+                if rec["sigma"] is not None and w_new > w_old:
+                    diag = [rec["sigma"][i][i] for i in range(w_old, w_new)]
+                    if all(d is not None for d in diag) and any(abs(d - 1.0 / lam) > 1e-6 / lam for d in diag):
+                        V("resize-new-diagonal", f"{where}: output layer grown from {w_old} to {w_new} weights (lambda={lam}): "
+                          f"new diagonal entries {diag}, expected {1.0 / lam}",
+                          "wrong-value" if all(d != 0 for d in diag) else "missing")
             else:
                 check_matrix(rec, A, where, False)
                 if op[0] == "clone" and rec.get("alias"):
@@ -490,12 +705,20 @@ class C19(vlib.Driver):
     def nontrivial(self, case, obs):
         if case["kind"] == "resize":
             return True
+        if case["kind"] == "loop":
+            return any(sum(1 for r in o["trace"] if r["op"] == "act") >= 3 for o in obs["agents"])
         return sum(1 for r in obs["trace"] if r["op"] == "act") >= 3
 
     def classify(self, case, obs):
         labs = [f"kind={case['kind']}", f"algo={case['algo']}", f"lam={case['lam']}"]
         if case["kind"] == "resize":
             labs.append(f"resize={case['how']}{case['k']}")
+            return labs
+        if case["kind"] == "loop":
+            labs.append("loop=" + ("hpo" if case["hpo"] else "plain"))
+            for o in obs["agents"]:
+                for op in o["ops"]:
+                    labs.append("loop-op=" + op[0])
             return labs
         labs.append(f"numel0={obs['init']['numel']}")
         nact = 0
@@ -516,7 +739,9 @@ class C19(vlib.Driver):
     def neighbours(self, case, rng):
         if case["kind"] != "hist":
             return
-        for i in range(len(case["ops"])):
+        idx = list(range(len(case["ops"])))
+        rng.shuffle(idx)
+        for i in idx[:5]:          # a handful of one-op-dropped neighbours (each costs a real run)
             c = dict(case)
             c["ops"] = case["ops"][:i] + case["ops"][i + 1:]
             if c["ops"]:
